@@ -93,7 +93,23 @@ def nonSemantic : List (String × String) := [
 def semEff (i : Nat) : List String :=
   (semantic.getD i []).filter (fun p => !(nonSemantic.contains (classes.getD i "", p)))
 
-def covered (i : Nat) : Bool := (semEff i).all (fun p => (tokenized.getD i []).contains p)
+/-- class `i` is covered: every semantic operand is tokenized, or is a justified exception
+    (the tokenized test comes first: it almost always succeeds, which keeps kernel evaluation cheap) -/
+def covered (i : Nat) : Bool :=
+  (semantic.getD i []).all (fun p => (tokenized.getD i []).contains p || nonSemantic.contains (classes.getD i "", p))
+
+theorem covered_semEff (i : Nat) (h : covered i = true) : ∀ p, p ∈ semEff i → p ∈ tokenized.getD i [] := by
+  intro p hp
+  unfold semEff at hp
+  rw [List.mem_filter] at hp
+  unfold covered at h
+  rw [List.all_eq_true] at h
+  have h1 := h p hp.1
+  have h2 := hp.2
+  simp only [Bool.or_eq_true, Bool.not_eq_true'] at h1 h2
+  rcases h1 with h1 | h1
+  · rwa [List.contains_iff_mem] at h1
+  · rw [h2] at h1; exact absurd h1 (by simp)
 
 theorem C06_table_wellformed :
     params.length = classes.length ∧ tokenized.length = classes.length ∧ semantic.length = classes.length ∧
@@ -116,11 +132,7 @@ theorem C06_generated_premise :
   simp only [Bool.or_eq_false_iff, Bool.not_eq_false', decide_eq_true_eq] at hp
   rcases C06_table_covers cls hp.1 with h | h
   · apply posOf_subset
-    intro p hpm
-    unfold covered at h
-    rw [List.all_eq_true] at h
-    have := h p hpm
-    rwa [List.contains_iff_mem] at this
+    exact covered_semEff cls h
   · rw [hp.2] at h; exact absurd h (by simp)
 
 /-- the theorem instantiated on the generated table: for every expression tree over the classes of this source tree,
